@@ -186,7 +186,7 @@ VARIABLES
 vars == <<cx, prog, stk, cur, ldefs, racy, ncalls, live, taint, turn, h>>
 View == <<cx, prog, stk, cur, ldefs, racy, ncalls, live, taint, turn>>
 
-NoCall == [m |-> "none", ot |-> NoT, nm |-> ""]
+NoCall == [m |-> "none", ot |-> NoT, nm |-> "", b |-> 0]
 EmptyCx == [byID |-> <<>>, toType |-> <<>>, toValue |-> <<>>, typedefs |-> [x \in TypeNames |-> 0]]
 
 Ids(c) == (NP + 1)..(NP + Len(c.byID))
@@ -366,7 +366,7 @@ CallEnabled(nrm, call) ==
     [] OTHER -> TRUE
 
 \* The smallest caller-buffer name not in use.
-FreeBuf(c, lv) == Min((1..(MaxCalls + 1)) \ (lv \cup {c.toValue[i].o : i \in Ids(c)}))
+FreeBuf(c, lv, busy) == Min((1..(MaxCalls + 1)) \ (lv \cup busy \cup {c.toValue[i].o : i \in Ids(c)}))
 
 \* The program of a call; b names the caller's buffer.
 CallProg(nrm, call, b) ==
@@ -455,7 +455,7 @@ UsesBuf(call) == call.m \in {"value", "raw"}
 Call(p, call, nrm) ==
   /\ Gran = "call" /\ ncalls < MaxCalls
   /\ CallEnabled(nrm, call)
-  /\ LET b == IF UsesBuf(call) THEN FreeBuf(cx, live) ELSE 0
+  /\ LET b == IF UsesBuf(call) THEN FreeBuf(cx, live, {}) ELSE 0
          r == RunAll(cx, CallProg(nrm, call, b), <<>>, [x \in TypeNames |-> 0], call.m # "fields", FALSE, {})
          ev == [e |-> "call", p |-> p, m |-> call.m, ot |-> call.ot, nm |-> call.nm, b |-> b,
                 fin |-> TRUE, r |-> r.st[Len(r.st)], rb |-> r.rb, racy |-> r.race] IN
@@ -471,17 +471,16 @@ Call(p, call, nrm) ==
 Start(p, call, nrm) ==
   /\ Gran # "call" /\ turn = 0 /\ Idle(p) /\ ncalls < MaxCalls
   /\ CallEnabled(nrm, call)
-  /\ LET b == IF UsesBuf(call) THEN FreeBuf(cx, live) ELSE 0 IN
+  /\ LET b == IF UsesBuf(call) THEN FreeBuf(cx, live, {cur[q].b : q \in Procs}) ELSE 0 IN
      /\ prog' = [prog EXCEPT ![p] = CallProg(nrm, call, b)]
-     /\ live' = IF UsesBuf(call) THEN live \cup {b} ELSE live
+     /\ cur' = [cur EXCEPT ![p] = [b |-> b] @@ call]
      /\ h' = Append(h, [e |-> "start", p |-> p, m |-> call.m, ot |-> call.ot, nm |-> call.nm, b |-> b])
   /\ ncalls' = ncalls + 1
   /\ stk' = [stk EXCEPT ![p] = <<>>]
-  /\ cur' = [cur EXCEPT ![p] = call]
   /\ ldefs' = [ldefs EXCEPT ![p] = [x \in TypeNames |-> 0]]
   /\ racy' = [racy EXCEPT ![p] = FALSE]
   /\ turn' = IF Gran = "hook" THEN p ELSE 0
-  /\ UNCHANGED <<cx, taint>>
+  /\ UNCHANGED <<cx, taint, live>>
 
 \* One mutex section of process p.
 Step(p) ==
@@ -504,7 +503,9 @@ Step(p) ==
      /\ h' = Append(h, ev)
      \* the real state can be observed (and compared) only where the call is parked or done
      /\ IF yield THEN Emit(h', cx', taint') ELSE TRUE
-  /\ UNCHANGED <<ncalls, live>>
+     \* the caller may reuse its buffer only after the call has returned
+     /\ live' = IF fin /\ UsesBuf(cur[p]) THEN live \cup {cur[p].b} ELSE live
+  /\ UNCHANGED ncalls
 
 \* The caller reuses a byte slice it handed to LookupByValue: every toValue
 \* entry that aliases it now reads garbage.
